@@ -127,7 +127,10 @@ private:
         __TBB_ASSERT(r.is_divisible(), "can't split not divisible range");
 
         auto my_it = std::max_element(my_dims.begin(), my_dims.end(), [](const dim_range_type& first, const dim_range_type& second) {
-            return (first.size() * double(second.grainsize()) < second.size() * double(first.grainsize()));
+            // The ratios are compared in floating point, where sizes above 2^53 round: a dimension that is not
+            // divisible never compares greater than another one.
+            return second.is_divisible() && (!first.is_divisible() ||
+                   first.size() * double(second.grainsize()) < second.size() * double(first.grainsize()));
         });
 
         auto r_it = r.my_dims.begin() + (my_it - my_dims.begin());
